@@ -844,6 +844,9 @@ class DATETIME(NUMERIC):
         return self.prepare_datetime(x)
 
     def from_column_value(self, x):
+        if x == self.default:
+            # Column default: the document has no date
+            return None
         return long_to_datetime(x)
 
     def to_bytes(self, x, shift=0):
